@@ -133,7 +133,8 @@ let () =
          let spec = spec_handle coerce_go zero_go run_echo !ms inp in
          let obs = (calls, out) in
          let devs =
-           (if dev_non_object inp then ["non-object-request-code"] else [])
+           (if dev_batch_window inp then ["batch-detection-window"] else [])
+           @ (if dev_non_object inp then ["non-object-request-code"] else [])
            @ (if dev_ill_typed inp then ["ill-typed-member-code"] else [])
            @ (if dev_null_id coerce_go zero_go !ms inp then ["null-id-treated-as-notification"] else [])
            @ (if dev_notif_error coerce_go zero_go !ms inp then ["notification-error-response"] else []) in
